@@ -28,27 +28,41 @@ def isIntName (t : String) : Bool :=
   t == "int" || t == "int8" || t == "int16" || t == "int32" || t == "int64" ||
   t == "uint" || t == "uint8" || t == "uint16" || t == "uint32" || t == "uint64" || t == "byte"
 
+/-- Rules of the compilability model that belong to defects of the emitter (each one known-finding class of C14):
+`true` = the rule applies (the emitter at the pinned commit), `false` = repaired in /repo. -/
+structure EmitRules where
+  /-- a struct held by value must not have pointer-to-scalar fields (DeepEqual's nil test named the struct) -/
+  valueStruct : Bool := false
+  /-- a map looped over must not be keyed by `bool` (`append(*buf[:0], …)`: `cannot slice buf`) -/
+  boolKey : Bool := false   -- repaired in /repo (fix: Loop over a map keyed by bool did not compile)
+  /-- a type whose only byte slices are `*[]byte` lacks the `bytes` import -/
+  ptrBytesAlone : Bool := false
+deriving Repr, Inhabited
+
+def EmitRules.current : EmitRules := {}
+def EmitRules.original : EmitRules := { valueStruct := true, boolKey := true, ptrBytesAlone := true }
+
 /-- Key types the emitted Loop can render and the emitted lookups can convert (compiler.go:785-800, 842-849). -/
-def keyClass (k : Node) (looped : Bool) : Option String :=
+def keyClass (r : EmitRules) (k : Node) (looped : Bool) : Option String :=
   if !isBuiltinName k.typn then some "named-map-key"           -- `var k NStr`: the type name is emitted unqualified
-  else if looped && k.typn == "bool" then some "bool-map-key"   -- `*buf[:0]`
+  else if r.boolKey && looped && k.typn == "bool" then some "bool-map-key"   -- `*buf[:0]`
   else if looped && k.typn == "byte" then some "byte-map-key"   -- `x2bytes.AnyToBytes` does not exist
   else none
 
 mutual
-/-- `vr` (the original emitter, finding `uncompilable-ptr-scalar-field-in-struct-value`): a struct used by value
+/-- `r.valueStruct` (the original emitter, finding `uncompilable-ptr-scalar-field-in-struct-value`): a struct used by value
 must not have pointer-to-scalar / `*[]byte` fields — DeepEqual emitted `lx2 != nil` on the struct value
 (compiler.go:561-564 with 572-582). Repaired in /repo by `fix: DeepEqual tests the nil-ness of pointer-to-scalar
-fields on the field, not on its parent` (the nil test now names the field): with `vr = false` the rule is off. -/
-def fieldsClass (vr : Bool) (byValueNested : Bool) : List Node → Option String
+fields on the field, not on its parent` (the nil test now names the field): with the rule switched off the shape compiles. -/
+def fieldsClass (r : EmitRules) (byValueNested : Bool) : List Node → Option String
   | [] => none
   | ch :: rest =>
-    match fieldClass vr byValueNested ch with
+    match fieldClass r byValueNested ch with
     | some c => some c
-    | none => fieldsClass vr byValueNested rest
+    | none => fieldsClass r byValueNested rest
 
 /-- A struct field. `byValueNested`: the enclosing struct is itself held by value below the root. -/
-def fieldClass (vr : Bool) (byValueNested : Bool) (ch : Node) : Option String :=
+def fieldClass (r : EmitRules) (byValueNested : Bool) (ch : Node) : Option String :=
   match ch with
   | .basic i =>
     if byValueNested && i.ptr then some "ptr-scalar-field-in-struct-value"
@@ -56,35 +70,35 @@ def fieldClass (vr : Bool) (byValueNested : Bool) (ch : Node) : Option String :=
     else if isIntName i.typu then none                                   -- named integers convert with T(t)
     else if i.typu == "bool" && i.ptr then none                          -- only the nil comparison is emitted
     else some "named-scalar"                                             -- NBool: `>` on bool; NFloat: EqualFloat64(NFloat…); NStr: string ↔ NStr
-  | .struct i chld => fieldsClass vr (vr && !i.ptr) chld
+  | .struct i chld => fieldsClass r (r.valueStruct && !i.ptr) chld
   | .slice i e =>
     if i.typn == "[]byte" then (if byValueNested && i.ptr then some "ptr-scalar-field-in-struct-value" else none)
-    else elemClass vr e
+    else elemClass r e
   | .map _ k v =>
-    match keyClass k true with
+    match keyClass r k true with
     | some c => some c
-    | none => valClass vr v
+    | none => valClass r v
 
 /-- A slice element. -/
-def elemClass (vr : Bool) (e : Node) : Option String :=
+def elemClass (r : EmitRules) (e : Node) : Option String :=
   match e with
   | .basic i => if isBuiltinName i.typn then none else some "named-scalar-element"   -- `decl.x0`, `&pkg.x0`
-  | .struct i chld => fieldsClass vr (vr && !i.ptr) chld
+  | .struct i chld => fieldsClass r (r.valueStruct && !i.ptr) chld
   | .slice i _ => if i.typn == "[]byte" then some "bytes-element" else some "collection-element"   -- `lx.` + empty name; `len((x))` on a pointer
   | .map _ _ _ => some "collection-element"
 
 /-- A map value. -/
-def valClass (vr : Bool) (v : Node) : Option String :=
+def valClass (r : EmitRules) (v : Node) : Option String :=
   match v with
   | .basic i => if isBuiltinName i.typn then none else some "named-scalar-element"
-  | .struct i chld => fieldsClass vr (vr && !i.ptr) chld
+  | .struct i chld => fieldsClass r (r.valueStruct && !i.ptr) chld
   | .slice i e =>
     if i.typn == "[]byte" then some "bytes-element"
     else if i.ptr then some "ptr-collection-element"
     else (match e with | .basic ei => if isBuiltinName ei.typn then none else some "named-scalar-element" | _ => some "collection-element")
   | .map i k vv =>
     if i.ptr then some "ptr-collection-element"
-    else match keyClass k false with
+    else match keyClass r k false with
       | some c => some c
       | none => (match vv with | .basic vi => if isBuiltinName vi.typn then none else some "named-scalar-element" | _ => some "collection-element")
 end
@@ -102,11 +116,11 @@ def anyBytesL (wantPtr : Bool) : List Node → Bool
 end
 
 /-- The type discipline of the emitted code, shape by shape (each reason is one known-finding class of C14). -/
-def uncompilableShape (vr : Bool) (root : Node) : Option String :=
+def uncompilableShape (r : EmitRules) (root : Node) : Option String :=
   match root with
-  | .struct _ chld => fieldsClass vr false chld
-  | .slice _ e => elemClass vr e
-  | .map _ k v => (match keyClass k true with | some c => some c | none => valClass vr v)
+  | .struct _ chld => fieldsClass r false chld
+  | .slice _ e => elemClass r e
+  | .map _ k v => (match keyClass r k true with | some c => some c | none => valClass r v)
   | .basic _ => some "not-eligible"
 
 /-- `none`: the inspector emitted for this root type compiles; `some c`: it does not, for reason `c`.
@@ -115,14 +129,14 @@ discipline one file-level rule — DeepEqual emits `bytes.Equal` for every `[]by
 the `bytes` import was only registered by the compare snippet of a *plain* `[]byte` (writeCmp returns early
 for pointer nodes): a type whose only byte slices are `*[]byte` did not compile. Repaired in /repo (`fix: the
 inspector of a type whose only byte slices are *[]byte did not compile`): the equality emitter registers the import. -/
-def uncompilableWith (ptrBytesRule : Bool) (valueStructRule : Bool) (root : Node) : Option String :=
-  match uncompilableShape valueStructRule root with
+def uncompilableWith (r : EmitRules) (root : Node) : Option String :=
+  match uncompilableShape r root with
   | some c => some c
-  | none => if ptrBytesRule && anyBytes true root && !anyBytes false root then some "ptr-bytes-alone" else none
+  | none => if r.ptrBytesAlone && anyBytes true root && !anyBytes false root then some "ptr-bytes-alone" else none
 
 /-- The emitter as it is. -/
-def uncompilable (root : Node) : Option String := uncompilableWith false false root
+def uncompilable (root : Node) : Option String := uncompilableWith EmitRules.current root
 /-- The emitter at the pinned commit. -/
-def uncompilableOriginal (root : Node) : Option String := uncompilableWith true true root
+def uncompilableOriginal (root : Node) : Option String := uncompilableWith EmitRules.original root
 
 end Inspector
